@@ -1,3 +1,533 @@
-/- C08: property theorems (stub, not yet built) -/
+/-
+C08 — Replacements are ready before removal; failed actions roll back.
+
+Property theorems only (helper lemmas: `Karp/Proofs/OrchQueue.lean`).
+Model: `Karp/Model/OrchQueue.lean` — `Queue.StartCommand / Reconcile / waitOrTerminate / CompleteCommand`, the
+       disruption controller's cleanup, the cluster marks; every API call is a call site whose occurrences
+       fail according to a fault plan that is part of the world.
+Spec:  `Karp/Spec/OrchQueue.lean` — the observer's clauses (evaluated by the driver on what the real code did).
+
+Every theorem below quantifies over ALL worlds `w` (hence all fault plans, all call counters, all clock
+values, all numbers of candidates / commands / replacements, all retry budgets) or over all histories
+(`List Step`, incl. restarts and environment steps) from an initial world.
+-/
+import Karp.Proofs.OrchQueue
+import Karp.Spec.OrchQueue
+
 namespace Karp.C08
+open Karp.OrchQueue
+
+/-! ## Fact expectations over the regenerated source facts -/
+
+/-- `StartCommand`: refuse queued candidates → taint / mark candidates → create the replacements →
+    `MarkForDeletion` → enter the queue (`Lock` guards the map insertion and the channel send) -/
+theorem fact_startCommand_order :
+    Karp.Gen.OrchQueue.startCommandOrder =
+      ["HasAny", "markDisrupted", "createReplacementNodeClaims", "MarkForDeletion", "Lock"] := by decide
+
+/-- `waitOrTerminate`: the replacements are read (and the cluster state consulted) before any Delete is issued -/
+theorem fact_waitOrTerminate_order :
+    Karp.Gen.OrchQueue.waitOrTerminateOrder = ["kubeClient.Get", "NodeClaimExists", "kubeClient.Delete"] := by decide
+
+/-- `Reconcile`: on an unrecoverable error the taint and the condition are removed, then the command is completed -/
+theorem fact_reconcile_order :
+    Karp.Gen.OrchQueue.reconcileOrder =
+      ["waitOrTerminate", "IsUnrecoverableError", "RequireNoScheduleTaint", "ClearNodeClaimsCondition", "CompleteCommand"] := by
+  decide
+
+/-- `CompleteCommand` unmarks (for a failed command) before it drops the queue entries -/
+theorem fact_completeCommand_order :
+    Karp.Gen.OrchQueue.completeCommandOrder = ["UnmarkForDeletion", "delete"] := by decide
+
+/-- the controller's cleanup: sync gate, skip queued / marked nodes, untaint, clear the condition, only then disrupt -/
+theorem fact_controller_order :
+    Karp.Gen.OrchQueue.controllerOrder =
+      ["Synced", "HasAny", "MarkedForDeletion", "RequireNoScheduleTaint", "ClearNodeClaimsCondition", "disrupt"] := by decide
+
+/-- `NewCandidate` consults the queue before anything else -/
+theorem fact_newCandidate_order :
+    Karp.Gen.OrchQueue.newCandidateOrder = ["HasAny", "ValidateNodeDisruptable", "ValidatePodsDisruptable"] := by decide
+
+/-- the retry window is a proper clamp -/
+theorem fact_retry_window :
+    0 < Karp.Gen.OrchQueue.minRetryDurationNs ∧
+    Karp.Gen.OrchQueue.minRetryDurationNs ≤ Karp.Gen.OrchQueue.maxRetryDurationNs ∧
+    0 < Karp.Gen.OrchQueue.retryDurationScaleNs := by decide
+
+/-- the shape of the timeout handling is one the model knows: the one at the pinned commit (0: a deferred wrapper
+    turns EVERY result of a late pass into an unrecoverable error — finding F1) or the repaired one (2: the window is
+    only consulted while waiting) -/
+theorem fact_timeout_mode :
+    Karp.Gen.OrchQueue.timeoutMode = 0 ∨ Karp.Gen.OrchQueue.timeoutMode = 2 := by decide
+
+/-- the mode the code is in, as the driver instantiates the model -/
+def codeMode : TimeoutMode := TimeoutMode.ofCode Karp.Gen.OrchQueue.timeoutMode
+
+/-! ## Invariant of reachable worlds -/
+
+/-- bookkeeping of the commands (`CmdsOK`: a latch is only set for a replacement that reported Initialized, a command with
+    Deletes on its record has every replacement latched) and every queue entry names an existing command -/
+def Inv (w : World) : Prop :=
+  CmdsOK w ∧ ∀ i K, (candAt w i).owner = some K → K < w.cmds.length
+
+theorem inv_init (ncands : Nat) (cmds : List (List Nat × Nat)) (faults : List Fault) (missing : List Nat)
+    (retrySteps : Nat) (mode : TimeoutMode) : Inv (initWorld ncands cmds faults missing retrySteps mode) := by
+  constructor
+  · intro c hc
+    simp only [initWorld, List.mem_map] at hc
+    obtain ⟨⟨cs, n⟩, _, e⟩ := hc
+    subst e
+    refine ⟨fun r hr => ?_, fun h => by cases h⟩
+    simp only [List.mem_replicate] at hr
+    rw [hr.2]
+    exact ⟨(fun h => by cases h), (fun h => by cases h), (fun h => by cases h), (fun h => absurd rfl h)⟩
+  · intro i K h
+    simp only [candAt, initWorld] at h
+    cases hg : (List.replicate ncands ({} : Cand))[i]? with
+    | none => rw [hg] at h; cases h
+    | some c =>
+      rw [hg] at h
+      have := List.mem_of_getElem? hg
+      simp only [List.mem_replicate] at this
+      rw [this.2] at h
+      cases h
+
+/-- queue entries after a step: unchanged, or released, or set by an accepted start of an existing command -/
+theorem step_owner (w : World) (s : Step) (j : Nat) :
+    (candAt (step w s).2.2 j).owner = (candAt w j).owner ∨ (candAt (step w s).2.2 j).owner = none ∨
+    ∃ k via, s = .start k via ∧ (step w s).1 = .ok ∧ k < w.cmds.length ∧ j ∈ (cmdAt w k).cands ∧
+      (candAt w j).owner = none ∧ (candAt (step w s).2.2 j).owner = some k := by
+  cases s with
+  | start k via =>
+    rcases startCommand_owner_mark k via (reset w) with ⟨_, hk⟩ | ⟨hok, hlt, hfree, _, hall⟩
+    · exact Or.inl (hk.owner j)
+    · rcases hall j with ⟨ho, _⟩ | ⟨hm, ho, _⟩
+      · exact Or.inl ho
+      · exact Or.inr (Or.inr ⟨k, via, rfl, hok, hlt, hm, hfree j hm, ho⟩)
+  | reconcile k on =>
+    rw [step_reconcile]
+    rcases reconcile_cases k on (reset w) with e | ⟨ci, hc⟩
+    · rw [e]; exact Or.inl rfl
+    · rcases course_owner_mark hc j with ⟨_, _, ho, _⟩ | ⟨K, _, ho, _⟩
+      · exact Or.inl ho
+      · rw [ho]
+        by_cases hj : j ∈ (cmdAt (reset w) K).live ∧ j < (reset w).cands.length
+        · rw [if_pos hj]; exact Or.inr (Or.inl rfl)
+        · rw [if_neg hj]; exact Or.inl rfl
+  | advance ns =>
+    left
+    simp only [step]
+    split <;> rfl
+  | env op k i =>
+    left
+    show (candAt (envStep op k i (reset w)).2 j).owner = _
+    unfold envStep
+    split
+    · rfl
+    · split <;> rfl
+  | sync => exact Or.inl rfl
+  | restart =>
+    right; left
+    exact (restart_cand (reset w) j).1
+  | cleanup =>
+    left
+    exact (keep_eff ((eff_cleanup (reset w)).mono tc_api)).owner j
+
+theorem inv_step {w : World} (h : Inv w) (s : Step) : Inv (step w s).2.2 := by
+  obtain ⟨hc, ho⟩ := h
+  have hcar := carried_step w s
+  refine ⟨hcar.1 hc, fun j K hK => ?_⟩
+  rw [hcar.2.1]
+  rcases step_owner w s j with e | e | ⟨k, via, _, _, hlt, _, _, e⟩
+  · rw [e] at hK; exact ho j K hK
+  · rw [e] at hK; cases hK
+  · rw [e] at hK; cases hK; exact hlt
+
+theorem inv_run {w : World} (h : Inv w) : ∀ ss : List Step, Inv (run w ss) := by
+  intro ss
+  induction ss generalizing w with
+  | nil => exact h
+  | cons s ss ih => exact ih (inv_step h s)
+
+/-! ## 1. Replacements are ready before removal -/
+
+/-- **C08_delete_only_by_owning_pass** — in every world, under every fault plan: a Delete on a candidate NodeClaim is
+    issued only by a queue pass, for a live candidate of the command the queue resolves the item to, and only in a pass
+    in which every replacement of that command is latched-ready or reports Initialized right now; the replacements are
+    read before the first Delete (the recorded snapshot is their API state). -/
+theorem C08_delete_only_by_owning_pass (w : World) (s : Step) (e : DelEvent) (he : e ∈ (step w s).2.1) :
+    ∃ k on ci K, s = .reconcile k on ∧ (candAt w ci).owner = some K ∧ e.cand ∈ (cmdAt w K).live ∧
+      e.repls = (cmdAt w K).repls.map (·.api) ∧
+      ∀ r ∈ (cmdAt w K).repls, r.latched = true ∨ r.api = .init := by
+  cases s with
+  | reconcile k on =>
+    rw [step_reconcile] at he
+    rcases reconcile_cases k on (reset w) with e0 | ⟨ci, hc⟩
+    · rw [e0] at he; simp at he
+    · obtain ⟨K, hK, h1, h2, h3⟩ := course_events hc e he
+      exact ⟨k, on, ci, K, rfl, hK, h1, h2, h3⟩
+  | start k via => simp [step] at he
+  | advance ns => simp [step] at he
+  | env op k i => simp [step] at he
+  | sync => simp [step] at he
+  | restart => simp [step] at he
+  | cleanup => simp [step] at he
+
+/-- **C08_delete_after_ready** — in every reachable world: when a Delete on a candidate NodeClaim is issued, EVERY
+    replacement of the acting command has been created and has reported Initialized (at that instant or, latched, at an
+    earlier pass). -/
+theorem C08_delete_after_ready {w : World} (hinv : Inv w) (s : Step) (e : DelEvent) (he : e ∈ (step w s).2.1) :
+    ∃ ci K, (candAt w ci).owner = some K ∧ e.cand ∈ (cmdAt w K).live ∧
+      e.repls.length = (cmdAt w K).repls.length ∧
+      ∀ r ∈ (cmdAt w K).repls, r.created = true ∧ r.everInit = true := by
+  obtain ⟨_, _, ci, K, _, hK, h1, h2, h3⟩ := C08_delete_only_by_owning_pass w s e he
+  have hlt := hinv.2 ci K hK
+  have hok := hinv.1 _ (cmdAt_mem hlt)
+  refine ⟨ci, K, hK, h1, by rw [h2]; simp, fun r hr => ?_⟩
+  have hro := hok.1 r hr
+  rcases h3 r hr with hl | hi
+  · exact ⟨hro.ever (hro.latch hl), hro.latch hl⟩
+  · exact ⟨hro.ever (hro.init hi), hro.init hi⟩
+
+/-- … over all histories from any initial configuration -/
+theorem C08_delete_after_ready_hist (ncands : Nat) (cmds : List (List Nat × Nat)) (faults : List Fault)
+    (missing : List Nat) (retrySteps : Nat) (mode : TimeoutMode) (ss : List Step) (s : Step) (e : DelEvent)
+    (he : e ∈ (step (run (initWorld ncands cmds faults missing retrySteps mode) ss) s).2.1) :
+    let w := run (initWorld ncands cmds faults missing retrySteps mode) ss
+    ∃ ci K, (candAt w ci).owner = some K ∧ e.cand ∈ (cmdAt w K).live ∧
+      e.repls.length = (cmdAt w K).repls.length ∧
+      ∀ r ∈ (cmdAt w K).repls, r.created = true ∧ r.everInit = true :=
+  C08_delete_after_ready (inv_run (inv_init ..) ss) s e he
+
+/-
+Full-strength ("strict") statement, as the property text reads literally:
+
+    theorem C08_delete_after_ready_strict … : ∀ a ∈ e.repls, a = .init
+      -- at the instant of the Delete every replacement exists and reports Initialized
+
+The code violates it (finding F2, replayed on the real queue: corpus/c08.findings/002): `Replacement.Initialized`
+latches readiness, a latched replacement is never looked at again, so one that vanishes after it was latched does
+not stop the Deletes.  Proved instead: the statement under exactly the excluded guard, and its negation on the witness.
+-/
+
+/-- **C08_delete_after_ready_strict_partial** — if no latched replacement of the acting command has since vanished or
+    regressed (every latched replacement still reports Initialized), then at the instant of the Delete every replacement
+    exists and reports Initialized. -/
+theorem C08_delete_after_ready_strict_partial (w : World) (s : Step) (e : DelEvent) (he : e ∈ (step w s).2.1)
+    (hfresh : ∀ c ∈ w.cmds, ∀ r ∈ c.repls, r.latched = true → r.api = .init)
+    (hvalid : ∀ i K, (candAt w i).owner = some K → K < w.cmds.length) :
+    ∀ a ∈ e.repls, a = .init := by
+  obtain ⟨_, _, ci, K, _, hK, _, h2, h3⟩ := C08_delete_only_by_owning_pass w s e he
+  have hmem := cmdAt_mem (hvalid ci K hK)
+  intro a ha
+  rw [h2, List.mem_map] at ha
+  obtain ⟨r, hr, e⟩ := ha
+  subst e
+  rcases h3 r hr with hl | hi
+  · exact hfresh _ hmem r hr hl
+  · exact hi
+
+def f2World : World := initWorld 1 [([0], 2)] [] [] 4 .wrapAll
+def f2History : List Step :=
+  [.start 0 false, .env .init 0 0, .reconcile 0 0, .env .vanish 0 0, .env .init 0 1]
+
+/-- **C08_delete_after_ready_strict_fails** — the witness of F2: replacement 0 is latched by a first pass, vanishes,
+    replacement 1 initializes; the next pass issues the Delete while replacement 0 does not exist. -/
+theorem C08_delete_after_ready_strict_fails :
+    (step (run f2World f2History) (.reconcile 0 0)).2.1 = [{ cand := 0, repls := [.absent, .init], ok := true }] ∧
+    (step (run f2World f2History) (.reconcile 0 0)).1 = .succeeded := by decide
+
+/-! ## 2. Failed actions roll back -/
+
+/-- the ghost flag `issued` is complete: a pass that issues a Delete for command `K` sets it … -/
+theorem C08_issued_complete {w : World} (hinv : Inv w) (k on : Nat) (hne : (step w (.reconcile k on)).2.1 ≠ []) :
+    ∃ ci K, (candAt w ci).owner = some K ∧ (cmdAt (step w (.reconcile k on)).2.2 K).issued = true := by
+  rw [step_reconcile] at hne ⊢
+  rcases reconcile_cases k on (reset w) with e0 | ⟨ci, hc⟩
+  · rw [e0] at hne; exact absurd rfl hne
+  · obtain ⟨e, he⟩ := List.exists_mem_of_ne_nil _ hne
+    obtain ⟨K, hK, _⟩ := course_events hc e he
+    refine ⟨ci, K, hK, ?_⟩
+    rw [course_issued hc K hK (hinv.2 _ K hK)]
+    cases hemp : (reconcile k on (reset w)).2.1 with
+    | nil => exact absurd hemp hne
+    | cons a t => simp
+
+/-- … and is never reset, by any step -/
+theorem C08_issued_monotone (w : World) (s : Step) (K : Nat) (h : (cmdAt w K).issued = true) :
+    (cmdAt (step w s).2.2 K).issued = true := (carried_step w s).2.2 K h
+
+/-
+Full-strength statement: an action the queue gives up has issued no Delete —
+
+    theorem C08_rollback_no_delete … (hfail : (step w (.reconcile k on)).1 = .failed) :
+        (cmdAt (step w (.reconcile k on)).2.2 K).issued = false
+
+The code at the pinned commit violates it (finding F1, replayed on the real queue: corpus/c08.findings/001): the
+deferred timeout wrapper of `waitOrTerminate` also wraps the result of a pass that DID issue the Deletes.
+-/
+
+/-- **C08_rollback_no_delete_partial** — in every reachable world, whatever the faults: if the queue gives a command up
+    although Deletes are on its record, then that pass was later than the retry window, every replacement was ready in
+    it (it reached the delete phase) and the code applies the window to the delete phase.  Equivalently: a replacement
+    that disappears, or a timeout while replacements are still being waited for, ends an action that has deleted
+    nothing. -/
+theorem C08_rollback_no_delete_partial {w : World} (hinv : Inv w) (k on : Nat)
+    (hfail : (step w (.reconcile k on)).1 = .failed) :
+    ∃ ci K, (candAt w ci).owner = some K ∧
+      ((cmdAt (step w (.reconcile k on)).2.2 K).issued = true →
+        w.mode ≠ .waitOnly ∧ timedOut w (cmdAt w K) = true ∧
+          ∀ r ∈ (cmdAt w K).repls, r.latched = true ∨ r.api = .init) := by
+  rw [step_reconcile] at hfail ⊢
+  rcases reconcile_cases k on (reset w) with e0 | ⟨ci, hc⟩
+  · rw [e0] at hfail; cases hfail
+  · obtain ⟨K, hK⟩ := course_failed_acting hc hfail
+    have hlt := hinv.2 ci K hK
+    refine ⟨ci, K, hK, fun hi => ?_⟩
+    exact course_failed_issued hc hfail K hK hlt (hinv.1 _ (cmdAt_mem hlt)) hi
+
+/-- **C08_rollback_no_delete_fixed** — with the retry window consulted only while waiting (`fixes/C08-…patch`; the
+    regenerated fact `timeoutMode = 2`) the full statement holds: a command the queue gives up has no Delete on its record. -/
+theorem C08_rollback_no_delete_fixed {w : World} (hinv : Inv w) (hmode : w.mode = .waitOnly) (k on : Nat)
+    (hfail : (step w (.reconcile k on)).1 = .failed) :
+    ∃ ci K, (candAt w ci).owner = some K ∧ (cmdAt (step w (.reconcile k on)).2.2 K).issued = false := by
+  obtain ⟨ci, K, hK, h⟩ := C08_rollback_no_delete_partial hinv k on hfail
+  refine ⟨ci, K, hK, ?_⟩
+  cases hi : (cmdAt (step w (.reconcile k on)).2.2 K).issued with
+  | false => rfl
+  | true => exact absurd hmode (h hi).1
+
+/-- **C08_rollback_no_delete_in_window** — in every mode: a command given up before its retry window has passed
+    (a replacement disappeared) has no Delete on its record. -/
+theorem C08_rollback_no_delete_in_window {w : World} (hinv : Inv w) (k on : Nat)
+    (hfail : (step w (.reconcile k on)).1 = .failed)
+    (hwin : ∀ K, timedOut w (cmdAt w K) = false) :
+    ∃ ci K, (candAt w ci).owner = some K ∧ (cmdAt (step w (.reconcile k on)).2.2 K).issued = false := by
+  obtain ⟨ci, K, hK, h⟩ := C08_rollback_no_delete_partial hinv k on hfail
+  refine ⟨ci, K, hK, ?_⟩
+  cases hi : (cmdAt (step w (.reconcile k on)).2.2 K).issued with
+  | false => rfl
+  | true =>
+    have := (h hi).2.1
+    rw [hwin K] at this
+    cases this
+
+def f1World : World := initWorld 1 [([0], 1)] [] [] 4 .wrapAll
+def f1History : List Step := [.start 0 false, .advance 600000000001, .env .init 0 0]
+
+/-- **C08_rollback_no_delete_fails** — the witness of F1 (mode of the pinned commit): the replacement reports
+    Initialized 1 ns after the 10-minute window; the pass issues the Delete, is reported failed, and the candidate is
+    unmarked, untainted and its condition cleared although its NodeClaim is being deleted. -/
+theorem C08_rollback_no_delete_fails :
+    (step (run f1World f1History) (.reconcile 0 0)).1 = .failed ∧
+    (step (run f1World f1History) (.reconcile 0 0)).2.1 = [{ cand := 0, repls := [.init], ok := true }] ∧
+    (step (run f1World f1History) (.reconcile 0 0)).2.2.cands =
+      [{ taint := false, cond := false, deleting := true, mark := false, owner := none }] := by decide
+
+/-- the same history in the repaired mode succeeds -/
+theorem C08_rollback_witness_fixed :
+    (step (run { f1World with mode := .waitOnly } f1History) (.reconcile 0 0)).1 = .succeeded := by decide
+
+/-- **C08_failed_releases** — in every world: when the queue gives a command up, each of its live candidates leaves the
+    queue and is unmarked at once (it counts as schedulable capacity again); no other node's queue entry or mark changes. -/
+theorem C08_failed_releases (w : World) (k on : Nat) (hfail : (step w (.reconcile k on)).1 = .failed) :
+    ∃ ci K, (candAt w ci).owner = some K ∧ ∀ j,
+      ((j ∈ (cmdAt w K).live ∧ j < w.cands.length) →
+        (candAt (step w (.reconcile k on)).2.2 j).owner = none ∧ (candAt (step w (.reconcile k on)).2.2 j).mark = false) ∧
+      (¬ (j ∈ (cmdAt w K).live ∧ j < w.cands.length) →
+        (candAt (step w (.reconcile k on)).2.2 j).owner = (candAt w j).owner ∧
+        (candAt (step w (.reconcile k on)).2.2 j).mark = (candAt w j).mark) := by
+  rw [step_reconcile] at hfail ⊢
+  rcases reconcile_cases k on (reset w) with e0 | ⟨ci, hc⟩
+  · rw [e0] at hfail; cases hfail
+  · obtain ⟨K, hK⟩ := course_failed_acting hc hfail
+    refine ⟨ci, K, hK, fun j => ?_⟩
+    rcases course_owner_mark hc j with ⟨hnf, _⟩ | ⟨K', hK', ho, hm⟩
+    · exact absurd hfail hnf
+    · rw [hK] at hK'; cases hK'
+      simp only [candAt_reset, cmdAt_reset, reset_cands] at ho hm
+      rcases hm with ⟨_, hm⟩ | ⟨hs, _⟩
+      · constructor
+        · intro hj; rw [ho, hm]; simp [hj]
+        · intro hj; rw [ho, hm]; simp [hj]
+      · rw [hfail] at hs; cases hs
+
+/-- **C08_failed_rolls_back_at_once** — if no fault interferes with the failing pass (quiet plan), the disruption taint
+    and the DisruptionReason condition of every live candidate are removed by that very pass. (Under faults the removal
+    is left to the next cleanup pass: `C08_cleanup_returns_to_service`.) -/
+theorem C08_failed_rolls_back_at_once {w : World} (hq : Quiet w) (hr : 0 < w.retrySteps) (k on : Nat)
+    (hfail : (step w (.reconcile k on)).1 = .failed) :
+    ∃ ci K, (candAt w ci).owner = some K ∧ ∀ j ∈ (cmdAt w K).live,
+      (candAt (step w (.reconcile k on)).2.2 j).taint = false ∧ (candAt (step w (.reconcile k on)).2.2 j).cond = false := by
+  rw [step_reconcile] at hfail ⊢
+  rcases reconcile_cases k on (reset w) with e0 | ⟨ci, hc⟩
+  · rw [e0] at hfail; cases hfail
+  · obtain ⟨K, hK, h⟩ := course_failed_quiet hc hfail (quiet_reset hq) hr
+    exact ⟨ci, K, hK, h⟩
+
+/-- **C08_rejected_start_inert** — in every world: a start that is not accepted (candidate already queued or not
+    disruptable, a candidate could not be tainted / marked, a replacement could not be created) changes no queue entry
+    and no deletion mark: nothing is in the queue for it, so it can delete nothing, and the nodes stay schedulable capacity. -/
+theorem C08_rejected_start_inert (w : World) (k : Nat) (via : Bool) (hrej : (step w (.start k via)).1 ≠ .ok) :
+    ∀ j, (candAt (step w (.start k via)).2.2 j).owner = (candAt w j).owner ∧
+         (candAt (step w (.start k via)).2.2 j).mark = (candAt w j).mark := by
+  rcases startCommand_owner_mark k via (reset w) with ⟨_, hk⟩ | ⟨hok, _⟩
+  · exact fun j => ⟨hk.owner j, hk.mark j⟩
+  · exact absurd hok hrej
+
+/-- **C08_cleanup_returns_to_service** — once the faults have stopped (no fault of the plan applies to any later call),
+    a cleanup pass on a synced cluster state succeeds and afterwards every node that is neither in the queue, nor
+    marked for deletion, nor going away carries no disruption taint and no DisruptionReason condition. -/
+theorem C08_cleanup_returns_to_service {w : World} (hq : Quiet w) (hr : 0 < w.retrySteps) (hs : synced w = true) :
+    (step w .cleanup).1 = .ok ∧
+    ∀ i, i < w.cands.length → (candAt w i).owner = none → (candAt w i).mark = false → (candAt w i).deleting = false →
+      (candAt (step w .cleanup).2.2 i).taint = false ∧ (candAt (step w .cleanup).2.2 i).cond = false :=
+  cleanup_quiet (w := (reset w)) hq hr hs
+
+/-- **C08_cleanup_keeps_actions** — under every fault plan the cleanup pass writes nothing but taints and conditions:
+    queue entries, deletion marks, deletions and the commands are untouched. -/
+theorem C08_cleanup_keeps_actions (w : World) :
+    (step w .cleanup).2.2.cmds = w.cmds ∧
+    ∀ j, (candAt (step w .cleanup).2.2 j).owner = (candAt w j).owner ∧
+         (candAt (step w .cleanup).2.2 j).mark = (candAt w j).mark ∧
+         (candAt (step w .cleanup).2.2 j).deleting = (candAt w j).deleting := by
+  have he := eff_cleanup (reset w)
+  have hk := keep_eff (he.mono tc_api)
+  exact ⟨he.frame.1, fun j => ⟨hk.owner j, hk.mark j, he.field (·.deleting) tcUpd_deleting j⟩⟩
+
+/-- **C08_restart_forgets** — a restart leaves no queue entry and no in-memory mark behind -/
+theorem C08_restart_forgets (w : World) (j : Nat) :
+    (candAt (step w .restart).2.2 j).owner = none ∧ (candAt (step w .restart).2.2 j).mark = false := by
+  exact restart_cand (reset w) j
+
+/-! ## 3. A node is never the subject of two concurrent actions -/
+
+/-- **C08_exclusive** — in every world, for every step and every node `j`:
+    * a node that is in the queue for command `K` stays there, or is released (by a completing pass or a restart);
+      no step hands it to another command;
+    * a node enters the queue only through an accepted start of a command that lists it, and only if it was in the
+      queue for nobody. -/
+theorem C08_exclusive (w : World) (s : Step) (j K : Nat) (h : (candAt w j).owner = some K) :
+    (candAt (step w s).2.2 j).owner = some K ∨
+    ((candAt (step w s).2.2 j).owner = none ∧
+      (s = .restart ∨ ∃ k on, s = .reconcile k on ∧ ((step w s).1 = .failed ∨ (step w s).1 = .succeeded))) := by
+  rcases step_owner w s j with e | e | ⟨k, via, _, _, _, _, hnone, _⟩
+  · left; rw [e]; exact h
+  · right
+    refine ⟨e, ?_⟩
+    cases s with
+    | restart => exact Or.inl rfl
+    | reconcile k on =>
+      right
+      refine ⟨k, on, rfl, ?_⟩
+      rw [step_reconcile] at e ⊢
+      rcases reconcile_cases k on (reset w) with e0 | ⟨ci, hc⟩
+      · rw [e0] at e; rw [candAt_reset, h] at e; cases e
+      · rcases course_owner_mark hc j with ⟨_, _, ho, _⟩ | ⟨_, _, _, hm⟩
+        · rw [ho, candAt_reset, h] at e; cases e
+        · rcases hm with ⟨hf, _⟩ | ⟨hs, _⟩
+          · exact Or.inl hf
+          · exact Or.inr hs
+    | start k via =>
+      exfalso
+      rcases startCommand_owner_mark k via (reset w) with ⟨_, hk⟩ | ⟨_, _, _, _, hall⟩
+      · have := hk.owner j
+        rw [show (startCommand k via (reset w)).2 = (step w (.start k via)).2.2 from rfl, e,
+          candAt_reset, h] at this
+        cases this
+      · rcases hall j with ⟨ho, _⟩ | ⟨_, ho, _⟩
+        · rw [show (startCommand k via (reset w)).2 = (step w (.start k via)).2.2 from rfl, e,
+            candAt_reset, h] at ho
+          cases ho
+        · rw [show (startCommand k via (reset w)).2 = (step w (.start k via)).2.2 from rfl, e] at ho
+          cases ho
+    | advance ns =>
+      exfalso
+      have : (candAt (step w (.advance ns)).2.2 j).owner = (candAt w j).owner := by
+        simp only [step]; split <;> rfl
+      rw [this, h] at e; cases e
+    | env op k i =>
+      exfalso
+      have : (candAt (step w (.env op k i)).2.2 j).owner = (candAt w j).owner := by
+        show (candAt (envStep op k i (reset w)).2 j).owner = _
+        unfold envStep
+        split
+        · rfl
+        · split <;> rfl
+      rw [this, h] at e; cases e
+    | sync =>
+      exfalso
+      have : (candAt (step w .sync).2.2 j).owner = (candAt w j).owner := rfl
+      rw [this, h] at e; cases e
+    | cleanup =>
+      exfalso
+      have := (keep_eff ((eff_cleanup (reset w)).mono tc_api)).owner j
+      rw [show (cleanup (reset w)).2 = (step w .cleanup).2.2 from rfl, e,
+        candAt_reset, h] at this
+      cases this
+  · rw [hnone] at h; cases h
+
+/-- **C08_enter_only_by_start** — the second half of exclusivity -/
+theorem C08_enter_only_by_start (w : World) (s : Step) (j k : Nat) (h0 : (candAt w j).owner = none)
+    (h1 : (candAt (step w s).2.2 j).owner = some k) :
+    ∃ via, s = .start k via ∧ (step w s).1 = .ok ∧ j ∈ (cmdAt w k).cands := by
+  rcases step_owner w s j with e | e | ⟨k', via, hs, hok, _, hm, _, e⟩
+  · rw [e, h0] at h1; cases h1
+  · rw [e] at h1; cases h1
+  · rw [e] at h1; cases h1
+    exact ⟨via, hs, hok, hm⟩
+
+/-- **C08_start_refuses_queued** — a start whose command lists a node that is in the queue is rejected -/
+theorem C08_start_refuses_queued (w : World) (k : Nat) (via : Bool) (j K : Nat)
+    (hj : j ∈ (cmdAt w k).cands) (h : (candAt w j).owner = some K) : (step w (.start k via)).1 ≠ .ok := by
+  intro hok
+  rcases startCommand_owner_mark k via (reset w) with ⟨hne, _⟩ | ⟨_, _, hfree, _⟩
+  · exact hne hok
+  · have := hfree j hj
+    rw [candAt_reset, h] at this
+    cases this
+
+/-! ## The retry window -/
+
+/-- `GetMaxRetryDuration` stays within its clamp for every queue size -/
+theorem C08_retry_window_bounds (n : Nat) :
+    (Karp.Gen.OrchQueue.minRetryDurationNs : Int) ≤ retryDuration n ∧
+    retryDuration n ≤ (Karp.Gen.OrchQueue.maxRetryDurationNs : Int) := by
+  have hmm : Karp.Gen.OrchQueue.minRetryDurationNs ≤ Karp.Gen.OrchQueue.maxRetryDurationNs := fact_retry_window.2.1
+  unfold retryDuration
+  simp only
+  constructor
+  · split <;> split <;> omega
+  · split <;> split <;> omega
+
+/-! ## Non-vacuity: concrete reachable worlds meet the hypotheses and exercise the branches -/
+
+def happyWorld : World := initWorld 2 [([0, 1], 2)] [] [] 4 .wrapAll
+def happyHistory : List Step := [.start 0 true, .env .init 0 1, .reconcile 0 0, .env .init 0 0]
+
+/-- the invariant holds on a world in the middle of an action (one replacement latched, one just initialized) … -/
+example : Inv (run happyWorld happyHistory) := inv_run (inv_init ..) _
+example : ((cmdAt (run happyWorld happyHistory) 0).repls.map (·.latched)) = [false, true] ∧
+    (candAt (run happyWorld happyHistory) 1).owner = some 0 := by decide
+/-- … the next pass issues both Deletes with both replacements Initialized and succeeds (hypothesis of
+    `C08_delete_after_ready` is met by a non-empty event list) -/
+example : (step (run happyWorld happyHistory) (.reconcile 0 1)).2.1 =
+    [{ cand := 0, repls := [.init, .init], ok := true }, { cand := 1, repls := [.init, .init], ok := true }] ∧
+    (step (run happyWorld happyHistory) (.reconcile 0 1)).1 = .succeeded := by decide
+/-- a pass that fails inside the window (replacement gone): hypotheses of `C08_rollback_no_delete_in_window` and
+    `C08_failed_releases` are met; the candidate is released, unmarked, untainted -/
+example : (step (run f1World [.start 0 false, .env .vanish 0 0]) (.reconcile 0 0)).1 = .failed ∧
+    (step (run f1World [.start 0 false, .env .vanish 0 0]) (.reconcile 0 0)).2.2.cands = [{}] := by decide
+/-- a fault plan that makes a start fail (replacement creation fails) and is quiet afterwards; the cleanup pass then
+    returns the tainted candidate to service (hypotheses of `C08_rejected_start_inert` / `C08_cleanup_returns_to_service`) -/
+def faultyWorld : World := initWorld 1 [([0], 1)] [{ key := .createRepl 0 0, start := 0, count := 1, notFound := false }] [] 4 .wrapAll
+example : (step faultyWorld (.start 0 true)).1 = .launch ∧
+    (step faultyWorld (.start 0 true)).2.2.cands = [{ taint := true, cond := true }] ∧
+    (step (step faultyWorld (.start 0 true)).2.2 .cleanup).1 = .ok ∧
+    (step (step faultyWorld (.start 0 true)).2.2 .cleanup).2.2.cands = [{}] := by decide
+example : Quiet (initWorld 3 [([0], 1)] [] [] 4 .wrapAll) := fun _ _ _ => rfl
+/-- two actions, one node: the second start is refused (hypothesis of `C08_start_refuses_queued`) -/
+example : (step (run (initWorld 2 [([0], 1), ([0, 1], 1)] [] [] 4 .wrapAll) [.start 0 true]) (.start 1 false)).1 = .busy := by
+  decide
+
 end Karp.C08
